@@ -49,9 +49,29 @@ def gen_cases(rng, tier):
             s["psi"] = None
             dtwgen.derived(case)
         mode = "max_dist" if rng.random() < 0.6 else "use_pruning"
+        begin_psi = rng.random() < 0.2
+        if begin_psi:
+            # early abandoning against begin relaxation: the pruned start column must be forgotten while a path can
+            # still start in the zero border (rows up to psi_1b), the break column must respect psi_2b
+            mr = min(case["r"], case["c"])
+            if mr >= 2:
+                p1b = rng.randint(1, min(3, mr - 1))
+                p2b = rng.choice([0, 0, rng.randint(1, min(3, mr - 1))])
+                s["psi"] = [p1b, rng.choice([0, 0, 1]), p2b, rng.choice([0, 0, 1])]
+                s["window"] = rng.choice([None, None, max(case["r"], case["c"])])
+                mode = "max_dist"
+                if rng.random() < 0.6:
+                    # the canonical use of begin relaxation: series 1 = junk prefix of length psi_1b + a noisy copy of
+                    # series 2 -- the junk rows exceed every bound (the pruned start column moves right) and the
+                    # optimal path starts in the zero border right below them
+                    s2 = list(case["s2"])
+                    body = [v + rng.choice([0, 0, 0, 1, -1]) for v in s2]
+                    case["s1"] = [rng.choice([7, 9, -8]) for _ in range(p1b)] + body
+                    s["psi"] = [p1b, 0, p2b if p2b < len(s2) else 0, rng.choice([0, 0, 1])]
+                dtwgen.derived(case)
         case["mode"] = mode
         if mode == "max_dist":
-            s["max_dist"] = rng.randint(1, 8)
+            s["max_dist"] = rng.randint(1, 3) if begin_psi else rng.randint(1, 8)
             s["use_pruning"] = False
         else:
             s["max_dist"] = None
